@@ -66,6 +66,20 @@ theorem c09_jls_allocs (bs : Bytes) (hb : IsBytes bs) :
       a ≤ 8 * ((JlsH.header bs).1.width * (JlsH.header bs).1.height * (JlsH.header bs).1.comps) :=
   JlsH.header_allocs bs hb
 
+/-- (5c) MEMORY, lossless14sv1: with the second frame header rejected (commit FIXME-SOF) every
+    allocation up to the first Huffman symbol (segment payloads, Huffman values, the component planes
+    allocated by parseSOF3, also by a frame header that is rejected after its extent was read, scan
+    buffer, output buffer) is at most len(input), or 65533, or 8·w·h of the decoder's frame header -/
+theorem c09_sv1_allocs (bs : Bytes) (hb : IsBytes bs) :
+    ∀ a ∈ (sv1Decode bs).1.allocs, a ≤ bs.length ∨ a ≤ 65533 ∨
+      a ≤ 8 * ((sv1Decode bs).1.width * (sv1Decode bs).1.height) := sv1Decode_allocs bs hb
+
+/-- (5d) MEMORY, baseline: likewise with 64·w·h (component planes are whole 8×8 blocks of the MCU
+    grid: ⌈w·H/(8·Hmax)⌉·⌈h·V/(8·Vmax)⌉·64 ≤ 64·w·h) -/
+theorem c09_baseline_allocs (bs : Bytes) (hb : IsBytes bs) :
+    ∀ a ∈ (blDecode bs).1.allocs, a ≤ bs.length ∨ a ≤ 65533 ∨
+      a ≤ 64 * ((blDecode bs).1.width * (blDecode bs).1.height) := blDecode_allocs bs hb
+
 example : IsBytes [0xff, 0xd8, 0xff, 0xc3] := by unfold IsBytes; decide
 
 end JM
